@@ -432,3 +432,103 @@ UNITS += [
          assumptions=["exact small-integer abstraction (offsets, tolerance in [-7,7]); a necessary condition of sense preservation, not the tolerance formula itself"],
          note="SurfaceSimplifier::operator()(CylAligned<T>) (host): a cylinder is replaced by the centred one only when both transverse offsets are below the tolerance; a centred one is always recognised"),
 ]
+
+
+# ---------------------------------------------------------------------------
+# calc_sense: the sense is the sign of the surface function
+# ---------------------------------------------------------------------------
+OTY = "src/orange/OrangeTypes.hh"
+SENSE_MODEL = """
+/* exact small-integer abstraction (VERIF_REAL_BITS = 8): every input in [-2, 2]; the surface functions have degree <= 2 in every variable, so agreement of two polynomials
+   on 5 values per variable is agreement everywhere; all intermediate values stay within 8 bits (|f| <= 2*4*3 + 2*2*3 + 2*3 + 2 < 127) */
+typedef struct { real_type v[3]; } Real3;
+enum { SENSE_inside = -1, SENSE_on = 0, SENSE_outside = 1 };     /* SignedSense (bound) */
+#define R2(x) ((x) >= -2 && (x) <= 2)
+#define POS_OK (R2(pos->v[0]) && R2(pos->v[1]) && R2(pos->v[2]))
+#define SIGN_OF(f) ((f) > 0 ? SENSE_outside : ((f) < 0 ? SENSE_inside : SENSE_on))
+static int dot3(Real3 a, Real3 b) { return a.v[0] * b.v[0] + a.v[1] * b.v[1] + a.v[2] * b.v[2]; }     /* dot_product (ArrayUtils.hh): sum of the three products */
+"""
+SENSE_RULES = [r for r in NORMAL_RULES] + [
+    Rule(r"\btpos\b(?!\{)", "tpos", "*", note="(local)"),
+    Rule(r"ipow<2>\(([^()]*)\)", r"((\1) * (\1))", "*", note="ipow<2>(x) == x*x"),
+    Rule(r"dot_product\(pos, pos\)", "dot3(*pos, *pos)", "*", note="dot_product"),
+    Rule(r"dot_product\(normal_, pos\)", "dot3(self->normal_, *pos)", "*", note="dot_product"),
+    Rule(r"dot_product\(pos, normal_\)", "dot3(*pos, self->normal_)", "*", note="dot_product"),
+    Rule(r"dot_product\(", "dot3(", "*", note="dot_product"),
+    Rule(r"(?<![\w.>])(radius_sq_|position_|d_)\b", r"self->\1", "*", note="data members"),
+    Rule(r"self->normal_", "self->normal_", "*", note="(member)"),
+    Rule(r"(?<![\w.>])normal_\b", "self->normal_", "*", note="data member"),
+]
+X0, X1, X2 = "pos->v[0]", "pos->v[1]", "pos->v[2]"
+SENSES = {
+    "cone": ("ConeAligned.hh", r"CELER_FUNCTION SignedSense ConeAligned<T>::calc_sense\(Real3 const& pos\) const", "Real3 origin_; real_type tsq_;", True,
+             "R2(self->origin_.v[0]) && R2(self->origin_.v[1]) && R2(self->origin_.v[2]) && R2(self->tsq_)",
+             "(" + " + ".join("(T_AX == %d ? -self->tsq_ : 1) * (pos->v[%d] - self->origin_.v[%d]) * (pos->v[%d] - self->origin_.v[%d])" % (k, k, k, k, k) for k in range(3)) + ")"),
+    "cyl": ("CylAligned.hh", r"CELER_FUNCTION SignedSense CylAligned<T>::calc_sense\(Real3 const& pos\) const", "real_type origin_u_, origin_v_, radius_sq_;", True,
+            "R2(self->origin_u_) && R2(self->origin_v_) && R2(self->radius_sq_)",
+            "((pos->v[U_AX] - self->origin_u_) * (pos->v[U_AX] - self->origin_u_) + (pos->v[V_AX] - self->origin_v_) * (pos->v[V_AX] - self->origin_v_) - self->radius_sq_)"),
+    "ccyl": ("CylCentered.hh", r"CELER_FUNCTION SignedSense CylCentered<T>::calc_sense\(Real3 const& pos\) const", "real_type radius_sq_;", True, "R2(self->radius_sq_)",
+             "(pos->v[U_AX] * pos->v[U_AX] + pos->v[V_AX] * pos->v[V_AX] - self->radius_sq_)"),
+    "sphere": ("Sphere.hh", r"CELER_FUNCTION SignedSense Sphere::calc_sense\(Real3 const& pos\) const", "Real3 origin_; real_type radius_sq_;", False,
+               "R2(self->origin_.v[0]) && R2(self->origin_.v[1]) && R2(self->origin_.v[2]) && R2(self->radius_sq_)",
+               "(" + " + ".join("(pos->v[%d] - self->origin_.v[%d]) * (pos->v[%d] - self->origin_.v[%d])" % (k, k, k, k) for k in range(3)) + " - self->radius_sq_)"),
+    "csphere": ("SphereCentered.hh", r"CELER_FUNCTION SignedSense SphereCentered::calc_sense\(Real3 const& pos\) const", "real_type radius_sq_;", False, "R2(self->radius_sq_)",
+                "(%s * %s + %s * %s + %s * %s - self->radius_sq_)" % (X0, X0, X1, X1, X2, X2)),
+    "sq": ("SimpleQuadric.hh", r"CELER_FUNCTION SignedSense SimpleQuadric::calc_sense\(Real3 const& pos\) const", "real_type a_, b_, c_, d_, e_, f_, g_;", False,
+           "R2(self->a_) && R2(self->b_) && R2(self->c_) && R2(self->d_) && R2(self->e_) && R2(self->f_) && R2(self->g_)",
+           "(self->a_ * %s * %s + self->b_ * %s * %s + self->c_ * %s * %s + self->d_ * %s + self->e_ * %s + self->f_ * %s + self->g_)" % (X0, X0, X1, X1, X2, X2, X0, X1, X2)),
+    "gq": ("GeneralQuadric.hh", r"CELER_FUNCTION SignedSense GeneralQuadric::calc_sense\(Real3 const& pos\) const", "real_type a_, b_, c_, d_, e_, f_, g_, h_, i_, j_;", False,
+           "R2(self->a_) && R2(self->b_) && R2(self->c_) && R2(self->d_) && R2(self->e_) && R2(self->f_) && R2(self->g_) && R2(self->h_) && R2(self->i_) && R2(self->j_)",
+           "(self->a_ * %s * %s + self->b_ * %s * %s + self->c_ * %s * %s + self->d_ * %s * %s + self->e_ * %s * %s + self->f_ * %s * %s + self->g_ * %s + self->h_ * %s + self->i_ * %s + self->j_)" % (X0, X0, X1, X1, X2, X2, X0, X1, X1, X2, X2, X0, X0, X1, X2)),
+    "plane_aligned": ("PlaneAligned.hh", r"CELER_FUNCTION SignedSense PlaneAligned<T>::calc_sense\(Real3 const& pos\) const", "real_type position_;", True, "R2(self->position_)",
+                      "(pos->v[T_AX] - self->position_)"),
+    "plane": ("Plane.hh", r"CELER_FUNCTION SignedSense Plane::calc_sense\(Real3 const& pos\) const", "Real3 normal_; real_type d_;", False,
+              "R2(self->normal_.v[0]) && R2(self->normal_.v[1]) && R2(self->normal_.v[2]) && R2(self->d_)",
+              "(self->normal_.v[0] * %s + self->normal_.v[1] * %s + self->normal_.v[2] * %s - self->d_)" % (X0, X1, X2)),
+}
+
+
+def real_to_sense_text(ctx):
+    pc = ctx.func(OTY, r"^real_to_sense\(real_type quadric\)", [Rule(r"\(SignedSense\)", "(int)", "*", note="enum cast"), Rule(r"static_cast<SignedSense>\(", "(int)(", "*", note="enum cast")], name="real_to_sense")
+    return "static int real_to_sense(int quadric)\n{" + pc.body + "}\n"
+
+
+def build_sense(kind, axis=None):
+    fname, loc, fields, templ, req, f = SENSES[kind]
+
+    def build(ctx):
+        pc = ctx.func(SURF_DIR + fname, loc, SENSE_RULES, name=fname[:-3] + "::calc_sense" + ("<%s>" % "xyz"[axis] if templ else ""))
+        ax = ""
+        if templ:
+            ax = axes_defs(ctx, SURF_DIR + fname, axis) if kind != "plane_aligned" else "#define T_AX %d\n" % axis
+        return (HDR + SENSE_MODEL + ax + real_to_sense_text(ctx) + "typedef struct { " + fields + " } Surf;\n"
+                "int SURF_calc_sense(Surf const* self, Real3 const* pos)\n"
+                "__CPROVER_requires(self != 0 && pos != 0 && POS_OK && " + req + ")\n__CPROVER_assigns()\n"
+                "/* the sense is the sign of the surface function of the class documentation, evaluated at pos */\n"
+                "__CPROVER_ensures(__CPROVER_return_value == SIGN_OF(" + f + "))\n"
+                "{" + pc.body + "}\nvoid h_sns(void)\n{\n    Surf s; Real3 p;\n    SURF_calc_sense(&s, &p);\n    VERIF_CANARY();\n}\n")
+    return build
+
+
+def build_real_to_sense(ctx):
+    return (HDR + "#define real_type double\n" if False else HDR) + """
+enum { SENSE_inside = -1, SENSE_on = 0, SENSE_outside = 1 };
+""" + real_to_sense_text(ctx).replace("static int real_to_sense(int quadric)", "int real_to_sense(double quadric)\n__CPROVER_requires(1)\n__CPROVER_assigns()\n/* sign of a REAL (double) value: positive -> outside, negative -> inside, zero (either sign) -> on; NaN counts as outside */\n__CPROVER_ensures(__CPROVER_return_value == (quadric > 0 ? SENSE_outside : (quadric < 0 ? SENSE_inside : (quadric == 0 ? SENSE_on : SENSE_outside))))") + """
+void h_rts(void)
+{
+    double q;
+    real_to_sense(q);
+    VERIF_CANARY();
+}
+"""
+
+
+UNITS.append(Unit("c12_real_to_sense", build_real_to_sense, "h_rts", enforce="real_to_sense", timeout=120, must_have=[r"real_to_sense.postcondition"],
+                  note="real_to_sense(double): +1 / -1 / 0 for positive / negative / zero, for every double (NaN -> outside)"))
+for _k, _spec in SENSES.items():
+    for _ax in ((0, 1, 2) if _spec[3] else (None,)):
+        _name = "c12_sense_%s%s" % (_k, "" if _ax is None else "_" + "xyz"[_ax])
+        UNITS.append(Unit(_name, build_sense(_k, _ax), "h_sns", enforce="SURF_calc_sense", timeout=900, backend=["sat", "kissat", "cvc5"], defines=["VERIF_REAL_BITS=8"], unwind=5,
+                          must_have=[r"SURF_calc_sense.postcondition"], checks=["--bounds-check", "--pointer-check", "--signed-overflow-check"],
+                          assumptions=["exact small-integer abstraction of real_type (complete for these degree <= 2 polynomial identities; floating-point rounding of the surface function near zero not covered)"],
+                          note=_spec[0][:-3] + "::calc_sense" + ("<%s>" % "xyz"[_ax] if _ax is not None else "") + ": the sense is the sign of the class's surface function at the position (real_to_sense of exactly that polynomial)"))
